@@ -1,6 +1,7 @@
 """C02 — sifting commutes with rescaling, sign flip and time reversal: extrema / envelope layer (EmdModel.Extrema),
 single-IMF extraction and classic sift (EmdModel.Sift), masked sift with ratio amplitudes (EmdModel.Mask)."""
 import math
+import time
 
 import numpy as np
 
@@ -36,7 +37,12 @@ TRUSTED = ['the theorems are about the models EmdModel.Extrema (tied to the code
            '(replay-desync), not trusted',
            'mask_sift, c < 0: demanded for even nphases only (the phase set must be closed under +pi); even then it is not bit-exact '
            '(cos(t+pi) is not -cos(t) in floating point and the phase order is permuted), so it is checked within tolerance']
-ASSUMPTIONS = ['Homogeneous: scipy splrep/splev, pchip, PchipInterpolator through knots (locs, c*mags) evaluate to c times the interpolant '
+ASSUMPTIONS = ['padding settings: the theorems and the model ops cover pad_width 1..5 with the default np.pad rules; the instance checks of '
+               'get_next_imf / sift additionally run non-default magnitude rules that are linear, odd and mirror-symmetric (mean / median over '
+               '2-3 extrema, edge, reflect, symmetric) and the explicitly given odd reflection of the locations, with ONE options dictionary '
+               'shared by all runs of a case (no model ops for these cases). Rules such as maximum / minimum / non-zero constant are not '
+               'equivariant themselves and are outside the claim',
+               'Homogeneous: scipy splrep/splev, pchip, PchipInterpolator through knots (locs, c*mags) evaluate to c times the interpolant '
                'through (locs, mags), c of either sign (validator interp_homogeneous: bit-exact for +-2^k, 1e-9 for real c)',
                'Reversible: mirroring the knots about (n-1)/2 mirrors the interpolant (validator interp_reversible, 1e-9)',
                'np.std(c*x) = |c|*np.std(x) (validator std_abs_homogeneous; used by the mask-sift law)',
@@ -60,7 +66,12 @@ RULE = ('signals of order-one amplitude from 7 families (noise, random walk, mul
         'columns of the layers before it. Every signal that reaches extrema detection in the base run is inspected by the replay: inputs, '
         'masked inputs of every phase and layer, every iterate, every residual (exact ties of the raw input are preserved by rescaling and '
         'reversal and do not count; ties created by arithmetic do, e.g. the exactly flat stretches of pchip envelopes between equal knots). '
-        'A case is non-trivial when the base run performs at least one envelope iteration; distinct by content hash.')
+        'A case is non-trivial when the base run performs at least one envelope iteration; distinct by content hash. '
+        'Verdict classes: bit-for-bit (+-2^k) verdicts of get_next_imf / sift / mask_sift are always literal; tolerance-class verdicts (real c, reversal, '
+        'negative c with masks) are literal only when the replay that measures the guard band reproduces the run (otherwise mechanism-level); '
+        'the extrema / envelope / oracle streams observe the mechanism below the IMFs and are mechanism-level throughout; the continue flag is not an IMF '
+        '(mechanism-level). Run time is not judged: a run over 60 s, a case over 100 s (no further transformed runs) or over its 300 s budget is skipped and tagged; '
+        'slow option sets (rilling / sd with step < 1; pchip without a cap) get an IMF cap in the generator.')
 
 
 def _scale(x):
@@ -95,24 +106,29 @@ def _shrink_signal(case):
 
 
 class _Equiv(Stream):
-    """common reporting of the metamorphic streams: out = {'fails': [[kind, detail]], 'skips': [kind], ...}"""
+    """common reporting of the metamorphic streams: out = {'fails': [[kind, detail, literal]], 'skips': [kind], ...}"""
     timeout_s = 300
+    LITERAL = True      # False: the stream observes a layer below the extracted IMFs (mechanism of the anchors): no verdict is literal
 
     def compare(self, case, out, results):
         if isinstance(out, ImplError):
-            return None
+            return 'skip:timeout' if out['error'] == 'Timeout' else None
         if out.get('skips') and not out.get('fails'):
             return 'skip:' + ','.join(out['skips'])
         return None
 
     def holds(self, case, out):
         if isinstance(out, ImplError):
-            return [Failure('raises:' + out['error'], out['msg'])]
+            if out['error'] == 'Timeout':
+                return []       # run time is not C02's subject: the case is skipped and tagged (compare -> skip:timeout)
+            return [Failure('raises:' + out['error'], out['msg'], literal=self.LITERAL)]
         fs, seen = [], set()
-        for kind, detail in out.get('fails', []):
+        for entry in out.get('fails', []):
+            kind, detail = entry[0], entry[1]
+            lit = (entry[2] if len(entry) > 2 else True) and self.LITERAL
             if kind not in seen:
                 seen.add(kind)
-                fs.append(Failure(kind, detail))
+                fs.append(Failure(kind, detail, literal=bool(lit)))
         if out.get('desync'):
             fs.append(Failure(self.name + ':replay-desync', out['desync'], literal=False))
         return fs
@@ -129,9 +145,30 @@ def _as_impl_error(r):
     return ImplError(error=r['error'], msg=r.get('msg', '')) if isinstance(r, dict) and 'error' in r else r
 
 
+def _is_timeout(r):
+    return isinstance(r, dict) and r.get('error') == 'Timeout'
+
+
+def _loop_tie(parab, n, *outs):
+    """with parabolic refinement the re-padding loop tests fractional locations against 0 and n: a returned location at
+    rounding distance from either bound makes the number of padding rounds (hence every knot and the whole envelope) a matter
+    of rounding, which a real rescaling may decide differently"""
+    if not parab:
+        return False
+    bound = 1e-9 * max(1.0, n)
+    for o in outs:
+        if isinstance(o, dict) and o.get('locs'):
+            if any(min(abs(v), abs(v - n)) <= bound for v in o['locs']):
+                return True
+    return False
+
+
 class ExtremaEquiv(_Equiv):
+    """get_padded_extrema under the three transformations: the MECHANISM behind C02 (the statement speaks about extracted IMFs
+    only; modes abs_peaks / pad 0 are not even used by a sift), so every verdict of this stream is mechanism-level"""
     name = 'extrema'
     timeout_s = 120
+    LITERAL = False
 
     def corpus(self):
         return [
@@ -184,8 +221,11 @@ class ExtremaEquiv(_Equiv):
                     corr.append({'x': cx, 'mode': m, 'out': r, 'tf': 'c=%r' % c})
                 src = base[K.source_mode(m, c)]
                 f = K.factor_for(m, c)
+                if _is_timeout(r) or _is_timeout(src):
+                    verdicts.append(('skip', label + ':timeout', ''))
+                    continue
                 if (r is None) != (src is None) or (isinstance(r, dict) and 'error' in r) or (isinstance(src, dict) and 'error' in src):
-                    if r == src:
+                    if r == src or (isinstance(r, dict) and 'error' in r and isinstance(src, dict) and 'error' in src):
                         continue
                     if not exact and gap < K.GUARD:
                         verdicts.append(('skip', label + ':near-tie-extrema', ''))
@@ -201,8 +241,7 @@ class ExtremaEquiv(_Equiv):
                 if not lok:
                     # with parabolic refinement the re-padding loop tests fractional locations against 0 and n: a location
                     # at rounding distance from either bound makes the number of padding rounds a matter of rounding
-                    loop_tie = (not exact) and parab and any(min(abs(v), abs(v - n)) <= 1e-9 * max(1.0, n)
-                                                             for v in list(r['locs']) + list(src['locs']))
+                    loop_tie = (not exact) and _loop_tie(parab, n, r, src)
                     if not exact and (gap < K.GUARD or loop_tie):
                         verdicts.append(('skip', label + (':near-tie-padding-loop' if loop_tie else ':near-tie-extrema'), ''))
                     else:
@@ -222,8 +261,11 @@ class ExtremaEquiv(_Equiv):
             r = self._gpe(rev, pad, m, parab)
             corr.append({'x': rev, 'mode': m, 'out': r, 'tf': 'reverse'})
             src = base[m]
+            if _is_timeout(r) or _is_timeout(src):
+                verdicts.append(('skip', 'extrema:reverse:timeout', ''))
+                continue
             if isinstance(r, dict) and 'error' in r or isinstance(src, dict) and 'error' in src:
-                if r != src:
+                if not (isinstance(r, dict) and 'error' in r and isinstance(src, dict) and 'error' in src):
                     verdicts.append(('fail', 'extrema:reverse:outcome-differs', 'mode=%s: %s vs %s' % (m, r, src)))
                 continue
             if parab:
@@ -251,10 +293,13 @@ class ExtremaEquiv(_Equiv):
 
     def compare(self, case, out, results):
         if isinstance(out, ImplError):
-            return 'implementation raised %s' % out['error']
+            return 'skip:timeout' if out['error'] == 'Timeout' else 'implementation raised %s' % out['error']
         single = c05.ExtremaSingle()
         skipped = None
         for e, r in zip(out['corr'], results):
+            if _is_timeout(e['out']):
+                skipped = 'skip:timeout'
+                continue
             sub = {'x': e['x'], 'pad': case['pad'], 'mode': e['mode'], 'parab': case['parab']}
             d = single.compare(sub, _as_impl_error(e['out']), [r])
             if isinstance(d, str) and d.startswith('skip:'):
@@ -280,8 +325,11 @@ class ExtremaEquiv(_Equiv):
 
 
 class EnvelopeEquiv(_Equiv):
+    """interp_envelope under the three transformations: mechanism-level like the extrema stream (the 'combined' envelope is not
+    used by any sift)"""
     name = 'envelope'
     timeout_s = 120
+    LITERAL = False
 
     def corpus(self):
         d = [0, 1, 0, 2, 0, 1, 0, 3, 1, 2, 0.5]
@@ -291,6 +339,10 @@ class EnvelopeEquiv(_Equiv):
             {'x': d, 'method': 'mono_pchip', 'pad': 3, 'parab': 1, 'creal': [3.7, -0.31], 'corr': [-1.0]},
             {'x': [0, 1, -1, 2, 0, 1, 1, 0, -2, 0], 'method': 'splrep', 'pad': 5, 'parab': 0, 'creal': [1.5, -2.5], 'corr': [-0.5]},
             {'x': [0, 1, 0], 'method': 'splrep', 'pad': 2, 'parab': 0, 'creal': [1.5, -2.5], 'corr': [-1.0]},
+            # clean-tree false alarms (review C, thorough seeds 3 / 8 and the extrema-corpus signal): a refined location reflected
+            # onto 0 up to rounding (-1.8e-15 for x, +8.9e-16 for c*x) gives c*x one more padding round: near-tie-padding-loop
+            {'x': [-0.0, 0.0, -1.5, -0.5, -0.5, -1.5, -0.5, -1.0, -1.5, 0.0, -0.5], 'method': 'splrep', 'pad': 1, 'parab': 1,
+             'creal': [0.08459926187133097, -48.601005974329475], 'corr': [-16.0], 'family': 'plateau'},
         ]
 
     def generate(self, rng, tier):
@@ -329,9 +381,15 @@ class EnvelopeEquiv(_Equiv):
                     corr.append({'x': cx, 'emode': m, 'out': r, 'tf': 'c=%r' % c})
                 src = base[K.source_mode(m, c)]
                 f = K.factor_for(m, c)
+                if _is_timeout(r) or _is_timeout(src):
+                    verdicts.append(('skip', label + ':timeout', ''))
+                    continue
+                loop_tie = (not exact) and _loop_tie(case['parab'], n, r, src)
                 if kind_of(r) != kind_of(src):
-                    if not exact and gap < K.GUARD:
-                        verdicts.append(('skip', label + ':near-tie-extrema', ''))
+                    if kind_of(r).startswith('error') and kind_of(src).startswith('error'):
+                        continue
+                    if not exact and (gap < K.GUARD or loop_tie):
+                        verdicts.append(('skip', label + (':near-tie-padding-loop' if loop_tie else ':near-tie-extrema'), ''))
                     else:
                         verdicts.append(('fail', label + ':outcome-differs', 'c=%r mode=%s: %s vs %s of x' % (c, m, kind_of(r), kind_of(src))))
                     continue
@@ -343,8 +401,8 @@ class EnvelopeEquiv(_Equiv):
                         verdicts.append(('fail', label + ':not-bit-exact', 'c=%r mode=%s method=%s: max |env(cx)/c - env_%s(x)| = %.3g'
                                          % (c, m, case['method'], K.source_mode(m, c), float(np.nanmax(np.abs(a / f - b))))))
                 elif not K.near(a / f, b, K.TOL * scale):
-                    if gap < K.GUARD:
-                        verdicts.append(('skip', label + ':near-tie-extrema', ''))
+                    if gap < K.GUARD or loop_tie:
+                        verdicts.append(('skip', label + (':near-tie-padding-loop' if loop_tie else ':near-tie-extrema'), ''))
                     else:
                         verdicts.append(('fail', label + ':differs', 'c=%r mode=%s: max dev %.3g' % (c, m, float(np.nanmax(np.abs(a / f - b))))))
         rev = x[::-1]
@@ -354,7 +412,11 @@ class EnvelopeEquiv(_Equiv):
             if case['parab']:
                 continue       # reversal with refined locations is not demanded (see ASSUMPTIONS)
             src = base[m]
-            if kind_of(r) != kind_of(src):
+            if _is_timeout(r) or _is_timeout(src):
+                verdicts.append(('skip', 'envelope:reverse:timeout', ''))
+            elif kind_of(r).startswith('error') and kind_of(src).startswith('error'):
+                pass
+            elif kind_of(r) != kind_of(src):
                 verdicts.append(('fail', 'envelope:reverse:outcome-differs', 'mode=%s: %s vs %s' % (m, kind_of(r), kind_of(src))))
             elif kind_of(r) == 'env' and not K.near(np.array(r['env'])[::-1], np.array(src['env']), K.TOL * scale):
                 verdicts.append(('fail', 'envelope:reverse:differs', 'mode=%s method=%s: max |env(rev x)[::-1] - env(x)| = %.3g'
@@ -375,10 +437,13 @@ class EnvelopeEquiv(_Equiv):
 
     def compare(self, case, out, results):
         if isinstance(out, ImplError):
-            return 'implementation raised %s' % out['error']
+            return 'skip:timeout' if out['error'] == 'Timeout' else 'implementation raised %s' % out['error']
         env = c05.Envelope()
         skipped = None
         for e, r in zip(out['corr'], results):
+            if _is_timeout(e['out']):
+                skipped = 'skip:timeout'
+                continue
             sub = {'x': e['x'], 'emode': e['emode'], 'method': case['method'], 'pad': case['pad'], 'parab': case['parab']}
             d = env.compare(sub, _as_impl_error(e['out']), [r])
             if isinstance(d, str) and d.startswith('skip:'):
@@ -407,6 +472,8 @@ class Oracles(_Equiv):
     """interp_homogeneous, interp_reversible, std_abs_homogeneous"""
     name = 'oracle_assumptions'
     timeout_s = 120
+    LITERAL = False     # a failed validator (or an exception inside scipy) means the theorems no longer apply to the deployed
+    #                     libraries: handled like a broken correspondence, never as a replayable C02 violation
 
     def corpus(self):
         return [{'locs': [-3, -1, 1, 3, 5, 7, 9], 'mags': [1, 1, 1, 2, 1, 1, 1], 'n': 7, 'method': m, 'creal': [3.7, -0.31]} for m in K.METHODS] + \
@@ -460,14 +527,6 @@ class Oracles(_Equiv):
         fails, skips = K.summarise(verdicts)
         return {'fails': fails, 'skips': skips, 'nontrivial': True}
 
-    def holds(self, case, out):
-        # a failed validator means the theorems no longer apply to the deployed library: handled like a broken correspondence
-        fs = _Equiv.holds(self, case, out)
-        for f in fs:
-            if f.kind.startswith('oracle:'):
-                f.literal = False
-        return fs
-
     def tags(self, case, out):
         return ['method=' + case['method'], 'mags=' + case.get('family', 'corpus'), 'fractional-knots=%d' % case.get('fractional', 0)]
 
@@ -480,7 +539,27 @@ def _opts_tags(o):
     t = ['stop=' + o['stop'], 'method=' + o['method'], 'pad=%d' % o['pad'], 'step=%.3g' % o['step'], 'parabolic=%d' % o.get('parab', 0)]
     if o.get('energy') is not None:
         t.append('energy_thresh')
+    t.append('mag_pad=' + (o['mag_pad']['mode'] if o.get('mag_pad') else 'default'))
+    if o.get('loc_pad'):
+        t.append('loc_pad=explicit-odd-reflect')
     return t
+
+
+CASE_BUDGET_S = 100.0       # wall clock per case: when exceeded no further transformed runs are started (skipped and tagged)
+
+
+def _bound_work(o, n):
+    """keep one case (base run + replay + ~40 transformed runs) far below its budget: slow sifts (rilling / sd with a small step
+    on quantised signals: ~100 iterations x ~25 layers) get a cap on the number of IMFs (run time is not C02's subject)"""
+    if o['stop'] != 'fixed' and o['step'] < 1.0:
+        cap = 4 if n <= 64 else 3
+        if o.get('max_imfs') is None or o['max_imfs'] > cap:
+            o['max_imfs'] = cap
+        if o['max_iters'] > 200:
+            o['max_iters'] = 200
+    if o['method'] != 'splrep' and o.get('max_imfs') is None:
+        o['max_imfs'] = 8       # pchip residuals keep rounding-level extrema: such sifts end by the threshold only, after dozens of layers
+    return o
 
 
 def _simplify_opts(case):
@@ -493,6 +572,8 @@ def _simplify_opts(case):
         yield dict(case, opts=dict(o, method='splrep'))
     if o['step'] != 1.0:
         yield dict(case, opts=dict(o, step=1.0))
+    if o.get('loc_pad'):
+        yield dict(case, opts={k: v for k, v in o.items() if k != 'loc_pad'})
 
 
 class GniEquiv(_Equiv):
@@ -508,6 +589,13 @@ class GniEquiv(_Equiv):
             {'x': [0.0, 1.0, 0.0], 'opts': sd, 'creal': [3.7, -0.31]},                                      # no extrema: returns its input
             {'x': [math.sin(0.9 * i) + 0.02 * i for i in range(24)], 'opts': dict(sd, max_iters=2, sd_thresh=0.001), 'creal': [3.7, -0.31]},  # EMDSiftCovergeError
             {'x': [math.sin(0.9 * i) + 0.5 * math.sin(0.21 * i) for i in range(40)], 'opts': dict(sd, parab=1, energy=50.0), 'creal': [3.7, -0.31]},
+            # "every padding setting" (round-3 seeded change: the caller's pad-option dictionary lost its 'mode' after the first envelope,
+            # so peaks and troughs / first and later calls were padded by different rules): non-default magnitude padding, one shared dict
+            {'x': [math.sin(0.9 * i) + 0.5 * math.sin(0.21 * i) + 0.3 * math.sin(0.05 * i * i / 40) for i in range(40)],
+             'opts': dict(sd, mag_pad={'mode': 'mean', 'stat_length': 3}), 'creal': [3.7, -0.31], 'family': 'corpus-padmode'},
+            {'x': [math.sin(0.9 * i) + 0.5 * math.sin(0.21 * i) + 0.3 * math.sin(0.05 * i * i / 40) for i in range(40)],
+             'opts': dict(sd, stop='fixed', max_iters=3, pad=3, mag_pad={'mode': 'reflect'}, loc_pad={'mode': 'reflect', 'reflect_type': 'odd'}),
+             'creal': [3.7, -0.31], 'family': 'corpus-padmode'},
         ]
 
     def generate(self, rng, tier):
@@ -529,7 +617,10 @@ class GniEquiv(_Equiv):
         for _ in range(1500 if tier == 'thorough' else 150):
             fam = rng.choice(K.FAMILIES)
             n = K.few_n(rng) if fam == 'few' else rng.choice([8, 16, 32, 64, 64, 200 if tier == 'thorough' else 48])
-            yield {'x': K.make_signal(rng, n, fam), 'opts': K.random_opts(rng), 'creal': K.real_factors(rng),
+            o = K.random_opts(rng)
+            if rng.random() < 0.15:
+                K.random_pad_opts(rng, o)
+            yield {'x': K.make_signal(rng, n, fam), 'opts': o, 'creal': K.real_factors(rng),
                    'pow2': _choose_pow2(rng, n, tier), 'corr_c': -2.0 ** rng.randint(-8, 8), 'family': fam}
 
     RUN = staticmethod(K.run_gni)
@@ -553,23 +644,38 @@ class GniEquiv(_Equiv):
         return K.verdict_scale(self.WHAT, c, base, res, scale, mg, K.is_pow2(c), thr=self._thr(o))
 
     def impl(self, case):
+        t0 = time.time()
+        K.begin_case()
         x = [float(v) for v in case['x']]
         o = case['opts']
         X = np.array(x, dtype=float)
         scale = _scale(x)
         base = self.RUN(x, o)
+        if base['kind'] == 'error' and base['error'] == 'Timeout':
+            return {'fails': [], 'skips': [self.WHAT + ':timeout'], 'desync': None, 'margins': K.Margins().to_json(),
+                    'info': {'iters': [], 'exits': ['timeout']}, 'base': 'error:Timeout', 'nontrivial': False, 'corr': None}
         desync, info, mg = self._replay(x, o, base, scale)
+        # the replay does not reproduce the run: the decision margins (the statement's own guard band) are those of another
+        # trajectory, so the tolerance-class verdicts are not trusted as literal (review C, finding 11)
+        margins_unknown = bool(desync)
         if desync and (mg.stop < K.GUARD or mg.ext < K.GUARD):
-            desync = None       # the replay itself sits on a near tie: margins unknown, nothing is skipped on their account
+            desync = None       # the replay itself sits on a near tie: not reported as a desync
         verdicts = []
+        late = False
         for c in _pow2_for(case) + list(case['creal']):
+            if time.time() - t0 > CASE_BUDGET_S:
+                late = True
+                break
             res = self.RUN([float(v) for v in c * X], o)
             verdicts.append(self._scale_verdict(c, base, res, scale, mg, o))
-        if self.REVERSE and not o.get('parab'):
+        if self.REVERSE and not o.get('parab') and not late:
             res = self.RUN(x[::-1], o)
             verdicts.append(K.verdict_reverse(self.WHAT, base, res, scale, mg))
-        verdicts += self._extra_verdicts(case, x, X, o, base, scale, mg)
-        fails, skips = K.summarise(verdicts)
+        if not late and time.time() - t0 <= CASE_BUDGET_S:
+            verdicts += self._extra_verdicts(case, x, X, o, base, scale, mg)
+        else:
+            verdicts.append(('skip', self.WHAT + ':time-budget', 'transformed runs not started after %.0f s' % CASE_BUDGET_S))
+        fails, skips = K.summarise(verdicts, margins_unknown)
         out = {'fails': fails, 'skips': skips, 'desync': desync, 'margins': mg.to_json(), 'info': info,
                'base': base['kind'] if base['kind'] == 'ok' else 'error:' + base['error'],
                'nontrivial': base['kind'] == 'ok' and any(e not in ('no-extrema',) for e in info['exits'][:1])}
@@ -593,7 +699,7 @@ class GniEquiv(_Equiv):
     def _corr_wanted(self, case, o, info):
         its = [i for i in info.get('iters', []) if i]
         return not o.get('parab') and len(case['x']) >= 3 and (max(its) if its else 0) <= C.MAX_ITERS_FOR_CORR \
-            and len(its) <= 8
+            and len(its) <= 8 and not K.has_custom_pad(o)      # the models pad by the default rules only
 
     def _corr_impl(self, case, x, o, base, info):
         if not self._corr_wanted(case, o, info):
@@ -616,7 +722,7 @@ class GniEquiv(_Equiv):
 
     def compare(self, case, out, results):
         if isinstance(out, ImplError):
-            return None
+            return 'skip:timeout' if out['error'] == 'Timeout' else None
         if out.get('corr_error'):
             return 'harness could not build the oracle tables for the model: ' + out['corr_error']
         d = self._corr_compare(case, out, results) if out.get('corr') else None
@@ -662,6 +768,9 @@ class SiftEquiv(GniEquiv):
             {'x': [0.0, 1.0, -0.5, 0.75, -1.0, 0.5, 0.0], 'opts': sd, 'creal': [3.7, -0.31]},
             # the absolute threshold fires: a signal of amplitude 1e-9 ends after one column, 256 times it does not
             {'x': [1e-9 * math.sin(0.9 * i) for i in range(32)], 'opts': sd, 'creal': [3.7, -0.31]},
+            # non-default magnitude padding (see the get_next_imf corpus)
+            {'x': x, 'opts': dict(sd, max_imfs=3, mag_pad={'mode': 'mean', 'stat_length': 3}), 'creal': [3.7, -0.31],
+             'pow2': [-1.0, 2.0, -0.125, 0.5, 256.0], 'family': 'corpus-padmode'},
         ]
 
     def generate(self, rng, tier):
@@ -680,6 +789,9 @@ class SiftEquiv(GniEquiv):
             if rng.random() < 0.15:
                 # a vanishing threshold only together with a cap: without one a pchip sift keeps peeling rounding noise (C03's business)
                 o['sift_thresh'] = rng.choice([1e-6, 1e-3] if o['max_imfs'] is None else [1e-12, 1e-6, 1e-3, 0.0])
+            if rng.random() < 0.15:
+                K.random_pad_opts(rng, o)
+            _bound_work(o, n)
             yield {'x': K.make_signal(rng, n, fam), 'opts': o, 'creal': K.real_factors(rng), 'pow2': _choose_pow2(rng, n, tier),
                    'corr_c': -2.0 ** rng.randint(-8, 8), 'family': fam}
 
@@ -809,7 +921,7 @@ class MaskEquiv(GniEquiv):
         return out
 
     def _corr_impl(self, case, x, o, base, info):
-        if o.get('parab') or base['kind'] != 'ok' or len(x) > 64:
+        if o.get('parab') or base['kind'] != 'ok' or len(x) > 64 or K.has_custom_pad(o):
             return None
         tfs = [('id', 1.0), ('pow2', abs(self._corr_c(case)))]
         if o['mask']['nphases'] % 2 == 0:
